@@ -46,3 +46,18 @@ Example C12_utf8_examples :
   utf8_valid [226; 130; 172] = true /\ utf8_valid [237; 160; 128] = false /\ utf8_valid [192; 128] = false /\
   utf8_valid [244; 144; 128; 128] = false /\ utf8_valid [240; 159; 152; 128] = true.
 Proof. vm_compute. auto. Qed.
+
+(* same CONTENTS: reading through the view of mem[a .. a+n) yields exactly those n cells in order; and after a write through a CSliceMut at index i
+   the view reads v at i and the original contents everywhere else *)
+Theorem C12_contents : forall mem a n, (a + n <= length mem)%nat ->
+  exists l, read_view mem (from_slice a n) = Some l /\ length l = n /\
+            forall i, (i < n)%nat -> nth_error l i = nth_error mem (a + i).
+Proof. exact view_contents. Qed.
+Print Assumptions C12_contents.
+
+Theorem C12_write_read : forall mem a n i v, (i < n)%nat -> (a + n <= length mem)%nat ->
+  exists m' l', write_through mem (from_slice a n) i v = Some m' /\ read_view m' (from_slice a n) = Some l' /\
+                length l' = n /\ nth_error l' i = Some v /\
+                (forall j, (j < n)%nat -> j <> i -> nth_error l' j = nth_error mem (a + j)).
+Proof. exact write_then_read. Qed.
+Print Assumptions C12_write_read.
